@@ -128,6 +128,16 @@ class Evaluator:
             # X().digest_size where X folds to a hashlib constructor name
             if e.attr == "digest_size" and isinstance(e.value, ast.Call):
                 fn = self._callee_text(e.value.func, module, depth)
+                hops = 0
+                while fn not in HASH_DIGEST and fn and hops < 4:
+                    # a repo helper whose whole body is `return <hash constructor>()`
+                    t = self.prog._resolve_abs(fn) or self.prog.resolve_name(module, fn)
+                    if isinstance(t, FunctionInfo) and len(t.node.body) == 1 and isinstance(t.node.body[0], ast.Return) \
+                            and isinstance(t.node.body[0].value, ast.Call) and not t.node.body[0].value.args:
+                        fn = self._callee_text(t.node.body[0].value.func, t.module, depth + 1)
+                        hops += 1
+                    else:
+                        break
                 if fn in HASH_DIGEST:
                     return HASH_DIGEST[fn]
             raise Unknown(ast.unparse(e))
